@@ -280,9 +280,12 @@ LeafFits(st, a, s) ==
        LET lim == Limit(st.apps[a], LevelOf(st, n)) IN
        lim = NoNum \/ TrueCount(st, n, st.apps[a].aff) < lim
 
+(* "an identity is free if it needs one": some identity below the group's count *)
+(* is held by nobody (computed from the holders, not from the group's own      *)
+(* bookkeeping of what is available)                                           *)
 IdentityFree(st, a) ==
   st.apps[a].group = "" \/ st.apps[a].identity # NoNum
-    \/ (st.apps[a].group \in DOMAIN st.groups /\ st.groups[st.apps[a].group].available # {})
+    \/ \E id \in 0..(GroupCount(st, st.apps[a].group) - 1) : id \notin Held(st, st.apps[a].group)
 
 C02probe(pre, post, queue, a) ==
   (/\ a \in AppNames(pre) /\ a \in AppNames(post)
